@@ -263,6 +263,13 @@ def run(ck):
     c = cases[1]
     ck.sample({'events': [[smf.event_token(e) for e in tr[:5]] for tr in c['desc']['tracks'][:2]], 'alt_encoding': c['alts'][0][:60]})
     ck.compare('smf_read.alt-encodings', reqs, impl, ck.driver.run(reqs))
+    # file I/O re-entered while a save / load with another charset is in progress: the bytes are those of the plain objects
+    from . import C17 as c17
+    ck.evaluations += 1
+    ck.count('nested_io')
+    f = c17.nested_io_fail()
+    if f:
+        ck.oracle_fail({'nested_io': True}, f)
     return ck.finish(RULE, assumptions=[
         'conformant = channel events, complete F0..F7 sysex events, meta events and (mido\'s extension) raw system-common '
         'events; F7 escapes, split sysex and alien chunks are outside',
@@ -270,6 +277,9 @@ def run(ck):
 
 
 def oracle(case):
+    if 'nested_io' in case:
+        from . import C17 as c17
+        return c17.nested_io_fail()
     c = {'desc': from_jsonable(case['file']), 'alts': case.get('alts', []), 'bad': [tuple(x) for x in case.get('bad', [])]}
     return impl_case(c)[1]
 
